@@ -7,7 +7,8 @@ What the byte level contributes (frame codec, CRC, torn tails, atomic tmp+rename
 modelled in `Persist/Codec.lean` and enters here through two facts: a torn tail is invisible to
 the reader, and a save is atomic.  File names are canonicalised to creation order (`Nat`).
 -/
-import KyroModel.Store.DocStore
+import KyroModel.Base.Assoc
+import KyroModel.Store.Filter
 
 namespace KyroModel
 
@@ -136,8 +137,28 @@ structure PCfg where
   maxWal : Nat
   cap : Nat
 
+/-- The in-memory store as the persistence protocol sees it: the live documents (a map) and the
+    number of index slots in use (tombstoned slots included), against the index capacity.
+    The slot-level structure (internal ids, inverted index) is `Store/DocStore.lean`. -/
+structure AStore where
+  docs : Docs
+  used : Nat
+
+namespace AStore
+def tombstones (s : AStore) : Nat := s.used - s.docs.length
+def compact (s : AStore) : AStore := { s with used := s.docs.length }
+def insert (s : AStore) (id : Nat) (v : List Nat) (m : MetaMap) : AStore :=
+  { docs := aset id (v, m) s.docs, used := s.used + 1 }
+def delete (s : AStore) (id : Nat) : AStore := { s with docs := aerase id s.docs }
+def has (s : AStore) (id : Nat) : Bool := (alookup id s.docs).isSome
+def updateMeta (s : AStore) (id : Nat) (m : MetaMap) : AStore :=
+  match alookup id s.docs with
+  | some (v, _) => { s with docs := aset id (v, m) s.docs }
+  | none => s
+end AStore
+
 structure PEng where
-  store : DocStore
+  store : AStore
   nextSeq : Nat
   since : Nat                  -- inserts_since_snapshot
   active : Nat                 -- active segment
@@ -146,35 +167,19 @@ structure PEng where
   degraded : Bool := false
   cfg : PCfg
 
-/-- live documents in slot order -/
-def liveDocs (s : DocStore) : Docs :=
-  s.slots.filterMap fun sl => sl.ext.map fun id => (id, (sl.vec, sl.md))
-
-section
-variable (parse : String → Option Nat)
-
-/-- rebuild the store from recovered documents: sorted by id, versions 1 -/
-def buildStore (cap : Nat) (docs : Docs) : DocStore :=
-  (docs.mergeSort (fun a b => a.1 ≤ b.1)).foldl
-    (fun s p => s.insertWith parse p.1 p.2.1 p.2.2 1) (DocStore.empty cap)
-
 /-- `rotate_wal_if_needed` (after an append): result engine + the actions issued -/
 def rotate (e : PEng) (d : Disk) : PEng × List Action :=
   if e.cfg.maxWal = 0 ∨ e.bytes < e.cfg.maxWal then (e, []) else
   match d.manifest with
   | none => (e, [])                      -- MANIFEST missing: rotation refused (error swallowed)
   | some m =>
-    let n := e.nextName
-    ({ e with active := n, bytes := 4, nextName := n + 1 },
-     [.walCreate n, .manifestPut { m with segs := m.segs ++ [n] }])
+    ({ e with active := e.nextName, bytes := 4, nextName := e.nextName + 1 },
+     [.walCreate e.nextName, .manifestPut { m with segs := m.segs ++ [e.nextName] }])
 
 /-- log one entry: append (+ rotation) -/
-def logEntry (e : PEng) (d : Disk) (en : WEntry) (flen : Nat) : PEng × Disk × List Action :=
-  let a1 := Action.walAppend e.active en
-  let d1 := d.apply a1
-  let e1 := { e with bytes := e.bytes + flen }
-  let (e2, as2) := rotate e1 d1
-  (e2, d1.applyAll as2, a1 :: as2)
+def logEntry (e : PEng) (d : Disk) (en : WEntry) (flen : Nat) : PEng × List Action :=
+  let r := rotate { e with bytes := e.bytes + flen } (d.apply (.walAppend e.active en))
+  (r.1, .walAppend e.active en :: r.2)
 
 /-- `compact_old_wal_segments`: every non-last listed segment whose entries are all covered -/
 def compactable (d : Disk) (m : Manifest) (lastSeq : Nat) : List Nat :=
@@ -188,30 +193,28 @@ def compactable (d : Disk) (m : Manifest) (lastSeq : Nat) : List Nat :=
 def missingSegs (d : Disk) (m : Manifest) : List Nat :=
   m.segs.dropLast.filter fun n => (alookup n d.wals).isNone
 
-/-- `create_snapshot` -/
-def snapshot (e : PEng) (d : Disk) : PEng × Disk × List Action :=
+/-- `create_snapshot`: engine afterwards + the actions issued, in order -/
+def snapshot (e : PEng) (d : Disk) : PEng × List Action :=
   let lastSeq := e.nextSeq - 1
   let name := e.nextName
-  let a1 := Action.snapPut name ⟨lastSeq, liveDocs e.store⟩
-  let d1 := d.apply a1
+  let a1 := Action.snapPut name ⟨lastSeq, e.store.docs⟩
   let e1 := { e with nextName := name + 1 }
-  match d1.manifest with
-  | none => (e1, d1, [a1])
+  match d.manifest with
+  | none => (e1, [a1])
   | some m =>
-    if m.snapSeq.getD 0 > lastSeq then
-      (e1, d1.apply (.unlinkSnap name), [a1, .unlinkSnap name])
+    if m.snapSeq.getD 0 > lastSeq then (e1, [a1, .unlinkSnap name])
     else
       let m1 : Manifest := { m with snap := some name, snapSeq := some lastSeq }
+      let d1 := d.apply a1
       let dead := compactable d1 m1 lastSeq
       let gone := missingSegs d1 m1
       let m2 : Manifest := { m1 with segs := m1.segs.filter fun n => !(dead.contains n || gone.contains n) }
-      -- fix "publish the pruned segment list before unlinking": the pruned MANIFEST is made
-      -- durable first, orphaned files are unlinked afterwards
-      let as := [Action.manifestPut m1, .manifestPut m2] ++ dead.map Action.unlinkWal
-      ({ e1 with since := 0 }, d1.applyAll as, a1 :: as)
+      -- (fix 89a0367) the pruned MANIFEST is made durable first, the covered files are
+      -- unlinked afterwards
+      ({ e1 with since := 0 }, a1 :: Action.manifestPut m1 :: Action.manifestPut m2 :: dead.map Action.unlinkWal)
 
-def maybeSnapshot (e : PEng) (d : Disk) : PEng × Disk × List Action :=
-  if e.cfg.snapInterval > 0 ∧ e.since ≥ e.cfg.snapInterval then snapshot e d else (e, d, [])
+def maybeSnapshot (e : PEng) (d : Disk) : PEng × List Action :=
+  if e.cfg.snapInterval > 0 ∧ e.since ≥ e.cfg.snapInterval then snapshot e d else (e, [])
 
 inductive POut | ok | full | rejected | bool (b : Bool) | count (n : Nat) | err
 deriving DecidableEq, Repr
@@ -219,90 +222,95 @@ deriving DecidableEq, Repr
 inductive Accept | yes | preflight | index
 deriving DecidableEq, Repr
 
-/-- `HnswBackend::insert` with persistence -/
+/-- index-full handling of `insert`: one tombstone compaction -/
+def afterCompaction (s : AStore) (cap : Nat) : AStore :=
+  if s.used ≥ cap ∧ s.tombstones > 0 then s.compact else s
+
+/-- the common flow of insert / delete / metadata update: log one entry (with rotation), apply
+    it to the in-memory store (`st'` = the store afterwards), count it, maybe snapshot -/
+def writeFlow (e : PEng) (d : Disk) (en : WEntry) (flen : Nat) (st' : AStore) : PEng × List Action :=
+  let r1 := logEntry { e with nextSeq := e.nextSeq + 1 } d en flen
+  let r3 := maybeSnapshot { r1.1 with store := st', since := r1.1.since + 1 } (d.applyAll r1.2)
+  (r3.1, r1.2 ++ r3.2)
+
+/-- the flow of an insert the ANN index refuses *after* the log append: a compensating Delete
+    entry is logged, memory is left alone (unreachable for validated inputs since fix d09e19e) -/
+def indexRejectFlow (e : PEng) (d : Disk) (en : WEntry) (flen flenDel : Nat) : PEng × List Action :=
+  let r1 := logEntry { e with nextSeq := e.nextSeq + 1 } d en flen
+  let en2 : WEntry := ⟨r1.1.nextSeq, .delete, en.id, [], []⟩
+  let r2 := logEntry { r1.1 with nextSeq := r1.1.nextSeq + 1 } (d.applyAll r1.2) en2 flenDel
+  (r2.1, r1.2 ++ r2.2)
+
+/-- `HnswBackend::insert` with persistence.  Returns the engine, the actions issued (the disk
+    afterwards is `d.applyAll` of them) and the result. -/
 def pInsert (e : PEng) (d : Disk) (id : Nat) (v : List Nat) (m : MetaMap) (acc : Accept)
-    (flen flenDel : Nat) : PEng × Disk × List Action × POut :=
-  if e.degraded then (e, d, [], .rejected) else
-  if acc = .preflight then (e, d, [], .rejected) else
-  -- index-full handling (one tombstone compaction)
-  let st1 := if e.store.slots.length ≥ e.store.cap ∧ e.store.tombstones > 0
-             then e.store.compact parse else e.store
-  let e0 := { e with store := st1 }
-  if st1.slots.length ≥ st1.cap then (e0, d, [], .full) else
-  let en : WEntry := ⟨e0.nextSeq, .insert, id, v, m⟩
-  let (e1, d1, as1) := logEntry { e0 with nextSeq := e0.nextSeq + 1 } d en flen
+    (flen flenDel : Nat) : PEng × List Action × POut :=
+  if e.degraded then (e, [], .rejected) else
+  if acc = .preflight then (e, [], .rejected) else
+  if (afterCompaction e.store e.cfg.cap).used ≥ e.cfg.cap then
+    ({ e with store := afterCompaction e.store e.cfg.cap }, [], .full) else
   if acc = .index then
-    -- refused by the ANN index after the log append: compensating Delete entry
-    let en2 : WEntry := ⟨e1.nextSeq, .delete, id, [], []⟩
-    let (e2, d2, as2) := logEntry { e1 with nextSeq := e1.nextSeq + 1 } d1 en2 flenDel
-    (e2, d2, as1 ++ as2, .rejected)
+    let r := indexRejectFlow { e with store := afterCompaction e.store e.cfg.cap } d
+      ⟨e.nextSeq, .insert, id, v, m⟩ flen flenDel
+    (r.1, r.2, .rejected)
   else
-    let e2 := { e1 with store := e1.store.insertCore parse id v m, since := e1.since + 1 }
-    let (e3, d3, as3) := maybeSnapshot e2 d1
-    (e3, d3, as1 ++ as3, .ok)
+    let r := writeFlow { e with store := afterCompaction e.store e.cfg.cap } d
+      ⟨e.nextSeq, .insert, id, v, m⟩ flen ((afterCompaction e.store e.cfg.cap).insert id v m)
+    (r.1, r.2, .ok)
 
 /-- `HnswBackend::delete` -/
-def pDelete (e : PEng) (d : Disk) (id : Nat) (flen : Nat) : PEng × Disk × List Action × POut :=
-  if e.degraded then (e, d, [], .err) else
-  match (e.store.delete parse id) with
-  | (_, false) => (e, d, [], .bool false)
-  | (st', true) =>
-    let en : WEntry := ⟨e.nextSeq, .delete, id, [], []⟩
-    let (e1, d1, as1) := logEntry { e with nextSeq := e.nextSeq + 1 } d en flen
-    let e2 := { e1 with store := st', since := e1.since + 1 }
-    let (e3, d3, as3) := maybeSnapshot e2 d1
-    (e3, d3, as1 ++ as3, .bool true)
+def pDelete (e : PEng) (d : Disk) (id : Nat) (flen : Nat) : PEng × List Action × POut :=
+  if e.degraded then (e, [], .err) else
+  if !e.store.has id then (e, [], .bool false) else
+  let r := writeFlow e d ⟨e.nextSeq, .delete, id, [], []⟩ flen (e.store.delete id)
+  (r.1, r.2, .bool true)
+
+/-- entries of a batch delete: one per occurrence, consecutive sequence numbers -/
+def batchEntries (seq0 : Nat) : List Nat → List WEntry
+  | [] => []
+  | id :: rest => ⟨seq0, .delete, id, [], []⟩ :: batchEntries (seq0 + 1) rest
+
+/-- flow of a batch delete over the live occurrences `occ` of the request -/
+def batchFlow (e : PEng) (d : Disk) (occ : List Nat) (flen : Nat) : PEng × List Action :=
+  let as1 := (batchEntries e.nextSeq occ).map (Action.walAppend e.active)
+  let r2 := rotate { e with nextSeq := e.nextSeq + occ.length, bytes := e.bytes + flen * occ.length }
+    (d.applyAll as1)
+  let r4 := maybeSnapshot
+    { r2.1 with store := occ.foldl AStore.delete r2.1.store, since := r2.1.since + occ.length }
+    (d.applyAll (as1 ++ r2.2))
+  (r4.1, as1 ++ r2.2 ++ r4.2)
 
 /-- `HnswBackend::batch_delete`: one Delete entry per *occurrence* of a live id in the request,
-    consecutive sequence numbers, one rotation check after the batch -/
-def pBatchDelete (e : PEng) (d : Disk) (ids : List Nat) (flen : Nat) :
-    PEng × Disk × List Action × POut :=
-  if e.degraded then (e, d, [], .err) else
-  let occ := ids.filter fun id => (e.store.lookup id).isSome
-  if occ.length = 0 then (e, d, [], .count 0) else
-  let ens : List WEntry := (List.range occ.length).zip occ |>.map fun (i, id) =>
-    ⟨e.nextSeq + i, .delete, id, [], []⟩
-  let as1 := ens.map (Action.walAppend e.active)
-  let d1 := d.applyAll as1
-  let e1 := { e with nextSeq := e.nextSeq + occ.length, bytes := e.bytes + flen * occ.length }
-  let (e2, as2) := rotate e1 d1
-  let d2 := d1.applyAll as2
-  let (st', n) := e2.store.batchDelete parse occ
-  let e3 := { e2 with store := st', since := e2.since + occ.length }
-  let (e4, d4, as4) := maybeSnapshot e3 d2
-  (e4, d4, as1 ++ as2 ++ as4, .count n)
+    one rotation check after the batch -/
+def pBatchDelete (e : PEng) (d : Disk) (ids : List Nat) (flen : Nat) : PEng × List Action × POut :=
+  if e.degraded then (e, [], .err) else
+  if (ids.filter fun id => e.store.has id).length = 0 then (e, [], .count 0) else
+  let r := batchFlow e d (ids.filter fun id => e.store.has id) flen
+  (r.1, r.2, .count ((ids.filter fun id => e.store.has id).eraseDups).length)
 
 /-- `HnswBackend::update_metadata`; the entry carries the fully merged map -/
 def pUpdate (e : PEng) (d : Disk) (id : Nat) (newMd : MetaMap) (flen : Nat) :
-    PEng × Disk × List Action × POut :=
-  if e.degraded then (e, d, [], .err) else
-  match e.store.lookup id with
-  | none => (e, d, [], .bool false)
-  | some _ =>
-    let en : WEntry := ⟨e.nextSeq, .update, id, [], newMd⟩
-    let (e1, d1, as1) := logEntry { e with nextSeq := e.nextSeq + 1 } d en flen
-    let e2 := { e1 with store := (e1.store.updateMeta parse id newMd).1, since := e1.since + 1 }
-    let (e3, d3, as3) := maybeSnapshot e2 d1
-    (e3, d3, as1 ++ as3, .bool true)
+    PEng × List Action × POut :=
+  if e.degraded then (e, [], .err) else
+  if !e.store.has id then (e, [], .bool false) else
+  let r := writeFlow e d ⟨e.nextSeq, .update, id, [], newMd⟩ flen (e.store.updateMeta id newMd)
+  (r.1, r.2, .bool true)
+
+def emptyDisk : Disk := ⟨none, [], []⟩
 
 /-- `with_persistence` on an empty directory -/
-def pInit (cfg : PCfg) : PEng × Disk × List Action :=
-  let as := [Action.walCreate 0, .manifestPut ⟨none, none, [0]⟩]
-  ({ store := DocStore.empty cfg.cap, nextSeq := 1, since := 0, active := 0, bytes := 4,
-     nextName := 1, cfg := cfg },
-   (⟨none, [], []⟩ : Disk).applyAll as, as)
+def pInit (cfg : PCfg) : PEng × List Action :=
+  ({ store := ⟨[], 0⟩, nextSeq := 1, since := 0, active := 0, bytes := 4, nextName := 1, cfg := cfg },
+   [Action.walCreate 0, .manifestPut ⟨none, none, [0]⟩])
 
 /-- restart = drop memory, strict `recover`, new active segment -/
-def pRestart (cfg : PCfg) (nextName : Nat) (d : Disk) : Except RecErr (PEng × Disk × List Action) :=
+def pRestart (cfg : PCfg) (nextName : Nat) (d : Disk) : Except RecErr (PEng × List Action) :=
   match recover d, d.manifest with
   | .error e, _ => .error e
   | .ok _, none => .error .noManifest
   | .ok (docs, mx), some m =>
-    let n := nextName
-    let as := [Action.walCreate n, .manifestPut { m with segs := m.segs ++ [n] }]
-    .ok ({ store := buildStore parse cfg.cap docs, nextSeq := mx + 1, since := 0, active := n,
-           bytes := 4, nextName := n + 1, cfg := cfg },
-         d.applyAll as, as)
+    .ok ({ store := ⟨docs, docs.length⟩, nextSeq := mx + 1, since := 0, active := nextName,
+           bytes := 4, nextName := nextName + 1, cfg := cfg },
+         [Action.walCreate nextName, .manifestPut { m with segs := m.segs ++ [nextName] }])
 
-end
 end KyroModel
